@@ -55,6 +55,9 @@ namespace occa {
     if (modeBuffer == NULL) return;
 
     modeBuffer->removeModeMemoryRef(this);
+#ifdef LIBOCCA_OCCA_VERIF
+    verif::yield(verif::ptAfterRemoveModeMemoryRef);
+#endif
 
     if (modeBuffer->needsFree()) {
       delete modeBuffer;
